@@ -26,7 +26,7 @@ fn main() {
             continue;
         }
         let (op, arg) = split_op(l);
-        let reply = h::guarded(|| h::dic_ops::handle(op, arg))
+        let reply = h::guarded(|| h::handle(op, arg))
             .unwrap_or(Some("panic-in-harness".to_string()))
             .unwrap_or_else(|| "bad-op".to_string());
         writeln!(out, "{}", reply.trim_end()).unwrap();
